@@ -486,6 +486,52 @@ def gen_random(rng, tier):
             "old": rng.choice(["", "old line\n", "no newline", "café\n"]) if (append or rng.random() < 0.2) else "", "recs": recs}
 
 
+BIG_TOTALS = (255, 256, 257, 4095, 4096, 4097, 32767, 32768, 32769, 65535, 65536, 65537, 131071, 131072, 131073)
+
+
+def _split_sizes(rng, total, parts):
+    """`parts` positive sizes adding up to `total`"""
+    parts = max(1, min(parts, total))
+    cuts = sorted(rng.sample(range(1, total), parts - 1)) if parts > 1 else []
+    return [b - a for a, b in zip([0] + cuts, cuts + [total])]
+
+
+def gen_big(rng, tier):
+    """LONG runs of consecutive read records and LARGE payloads: totals of rendered payload bytes at and around powers of two
+    (…, 65535 / 65536 / 65537, 2 x 65536 ± 1), as one huge read, two reads meeting at the boundary, many equal reads
+    (300 x 1000, 5 x 65535) or a random split; the run is ended by close(), by a non-read record, or followed by another run.
+    Eager records carry the payload text itself (the rendered size IS the size given); lazy ones carry bytes rendered by %r."""
+    ex = {"host": "sim", "port": "22", "uid": None}
+    out = []
+
+    def eager(n, i):
+        body = (f"<{i}>" + "x" * n)[:n] if n >= 8 else "y" * n
+        return rec("read: " + body, (), **ex)
+
+    def lazy(n, i):        # repr adds b'' (3 characters)
+        body = (f"<{i}>".encode() + bytes([97 + i % 26]) * n)[:max(n - 3, 0)]
+        return rec("read: %r", (body,), **ex)
+
+    def case(sizes, tail, mk=eager, buffered=True, pre=True):
+        recs = ([rec("start", (), level="INFO", **ex)] if pre else []) + [mk(n, i) for i, n in enumerate(sizes)]
+        if tail == "info":
+            recs.append(rec("after the run", (), level="INFO", **ex))
+        elif tail == "write+run":
+            recs += [rec("write: %r", ("show tech\n",), **ex), eager(300, 901), eager(300, 902)]
+        return {"kind": "handler", "big": True, "buffered": buffered, "caller": False, "append": False, "old": "", "recs": recs}
+
+    fixed = [([1000] * 300, "close"), ([65535] * 5, "info"), ([65535, 1], "close"), ([65535, 1, 1], "info"), ([1, 65535], "write+run"),
+             ([65536], "close"), ([32768, 32768, 7], "close"), ([256] * 257, "info")]
+    pick = fixed if tier != "quick" else [fixed[0], fixed[1]] + rng.sample(fixed[2:], 3)
+    for sizes, tail in pick:
+        out.append(case(sizes, tail, mk=rng.choice([eager, eager, lazy])))
+    for total in (BIG_TOTALS if tier != "quick" else rng.sample(BIG_TOTALS[:9], 2) + rng.sample(BIG_TOTALS[9:], 3)):
+        sizes = _split_sizes(rng, total, rng.choice([2, 2, 3, 17, 256]))
+        out.append(case(sizes, rng.choice(["close", "info", "write+run"]), mk=rng.choice([eager, lazy]), pre=rng.random() < 0.5))
+    out.append(case([70000, 5], "close", buffered=False))
+    return out
+
+
 def gen_malformed(rng, foreign):
     """records outside the property's domain: advisory only.  foreign=False: arity mismatches and incomplete
     directives (the model's %-fragment covers them); foreign=True: directives CPython knows and the model does not"""
@@ -705,7 +751,181 @@ def enc_emitted(recs):
     return ";".join(f"{es(r['msg'])}|{m_args(r['args'])}|{eo(r.get('host'))}|{eo(r.get('port'))}|{eo(r.get('uid'))}" for r in recs) if recs else "."
 
 
+# ---------------------------------------------------------------- channel log across commandeer()
+def run_commandeer(case, work):
+    """connection A (its own channel_log sink) opens and runs operations; driver B (its own channel_log setting, never
+    open()ed) commandeers A; operations run through B; B is closed (which closes the shared transport).
+    Returns both sinks, the bytes served before / after commandeer(), the channel ops and the channel's log records"""
+    from harness.simdevice import CliDevice
+    from harness.simtransport import CutOne, CutRng, Cuts, make_conn
+    import random
+    cwd = os.getcwd()
+    d = Path(tempfile.mkdtemp(dir=work.dir))
+    paths = {"a": d / ("scrapli_channel.log" if case["sink_a"] == "true" else "chanA.log"),
+             "b": d / ("scrapli_channel.log" if case["sink_b"] == "true" else "chanB.log")}
+    bios, sinks = {}, {}
+    for k in ("a", "b"):
+        sk, old = case["sink_" + k], bytes.fromhex(case.get("old_" + k, ""))
+        if sk in ("path", "true") and old:
+            paths[k].write_bytes(old)
+        if sk == "bio":
+            bios[k] = KeepBytesIO()
+            bios[k].write(old)
+        sinks[k] = {"off": False, "path": str(paths[k]), "true": True, "bio": bios.get(k)}[sk]
+    cap = Capture()
+    lg = logging.getLogger("scrapli")
+    saved = (lg.level, lg.propagate)
+    lg.setLevel(logging.DEBUG)
+    lg.addHandler(cap)
+    problems, ops, split = [], [], None
+    os.chdir(d)
+    try:
+        dev = CliDevice("cisco_iosxe", hostname="r1", nl=b"\r\n", banner=bytes.fromhex(case.get("banner", "")),
+                        outputs=lambda m, l: DEV_OUT[len(l) % len(DEV_OUT)])
+        ck_ = case["cuts"]
+        cuts = {"whole": Cuts(), "one": CutOne()}.get(ck_[0]) or CutRng(random.Random(ck_[1]), ck_[2])
+        common = dict(host=case.get("host", "sim"), port=22)
+        a, ta = make_conn(case.get("platform_a", "generic"), dev, stack=case["stack"], cuts=cuts, channel_log=sinks["a"],
+                          channel_log_mode=case.get("mode_a", "write"), **common)
+        b, _tb = make_conn("cisco_iosxe", dev, stack=case["stack"], channel_log=sinks["b"], channel_log_mode=case.get("mode_b", "write"), **common)
+        for conn in (a, b):
+            orig = conn.channel.write
+
+            def spy(channel_input, redacted=False, _o=orig):
+                ops.append(("w", channel_input, bool(redacted)))
+                return _o(channel_input=channel_input, redacted=redacted)
+            conn.channel.write = spy
+
+        class _L(list):
+            def append(self, x):
+                if x[0] == "R":
+                    ops.append(("r", x[1]))
+                list.append(self, x)
+        ta.trace = _L(ta.trace)
+        try:
+            if case["stack"] == "sync":
+                a.open()
+                for c in case["cmds_a"]:
+                    a.send_command(c)
+                split = (len(ops), len(ta.reads()))
+                b.commandeer(a, execute_on_open=case["on_open"])
+                for c in case["cmds_b"]:
+                    b.send_command(c)
+                b.close()
+            else:
+                async def go():
+                    nonlocal split
+                    await a.open()
+                    for c in case["cmds_a"]:
+                        await a.send_command(c)
+                    split = (len(ops), len(ta.reads()))
+                    await b.commandeer(a, execute_on_open=case["on_open"])
+                    for c in case["cmds_b"]:
+                        await b.send_command(c)
+                    await b.close()
+                asyncio.run(go())
+        except BaseException as e:
+            problems.append(f"{type(e).__name__}: {e}")
+        finally:
+            for conn in (a, b):      # whatever is still open (a mutated close path must not leak file handles into the next case)
+                with contextlib.suppress(Exception):
+                    cl = getattr(conn.channel, "channel_log", None)
+                    if cl is not None and not isinstance(cl, io.BytesIO):
+                        cl.close()
+        reads = ta.reads()
+    finally:
+        os.chdir(cwd)
+        lg.removeHandler(cap)
+        lg.setLevel(saved[0]); lg.propagate = saved[1]
+    content = {}
+    for k in ("a", "b"):
+        if case["sink_" + k] == "bio":
+            content[k] = bios[k].final if bios[k].final is not None else bios[k].getvalue()
+        else:
+            content[k] = paths[k].read_bytes() if paths[k].exists() else None
+    shutil.rmtree(d, ignore_errors=True)
+    nsplit = split[1] if split else len(reads)
+    chrecs = [r for r in cap.recs if r["name"] == "scrapli.channel" and r["func"] in ("read", "write")]
+    return {"content": content, "before": b"".join(reads[:nsplit]), "after": b"".join(reads[nsplit:]), "ops": ops, "recs": chrecs,
+            "problems": problems, "commandeered": split is not None}
+
+
+def _keeps_old(sink, mode):
+    return sink == "bio" or mode == "append"
+
+
+def judge_commandeer(case, res):
+    """channel-log faithfulness across commandeer(): every byte read through the channel — before AND after commandeer() —
+    is in the active sink exactly once, in order.  The active sink: the one of the original connection when it has one
+    (commandeer() documents that it takes it over; the commandeering driver is never open()ed, so its own setting opens
+    nothing and its sink must stay untouched); when the original connection has none, the commandeering driver's own sink
+    for what is read through it.  Returns (problems, problems that are the commandeering driver's own sink never being set up)"""
+    probs, own = list(res["problems"]), []
+    before, after = res["before"].replace(b"\r", b""), res["after"].replace(b"\r", b"")
+    old_a, old_b = bytes.fromhex(case.get("old_a", "")), bytes.fromhex(case.get("old_b", ""))
+    same = case["sink_a"] == "true" and case["sink_b"] == "true"
+    if case["sink_a"] != "off":
+        want_a = (old_a if _keeps_old(case["sink_a"], case.get("mode_a", "write")) else b"") + before + after
+        if res["content"]["a"] != want_a:
+            probs.append("the channel log of the original connection differs from the CR-stripped bytes read before and after commandeer()")
+        if case["sink_b"] != "off" and not same:
+            if (res["content"]["b"] or b"") != old_b:
+                probs.append("the commandeering driver's own channel log was written although the original connection's log is the active one")
+    else:
+        if res["content"]["a"] is not None:
+            probs.append("a channel log file appeared for a connection without channel_log")
+        if case["sink_b"] != "off":
+            want_b = (old_b if _keeps_old(case["sink_b"], case.get("mode_b", "write")) else b"") + after
+            if (res["content"]["b"] or b"") != want_b:
+                own.append("bytes read through the commandeering driver reach NO channel log: its own channel_log sink is never set up "
+                           "(commandeer() does not open it and the original connection has none to take over)")
+    exp = []
+    for op in res["ops"]:
+        exp.append("read: " + repr(op[1].replace(b"\r", b"")) if op[0] == "r" else ("write: REDACTED" if op[2] else "write: " + repr(op[1])))
+    if [o_message(r) for r in res["recs"]] != exp:
+        probs.append("read/write log records differ from the channel's reads and writes")
+    return probs, own
+
+
+def cmd_predicate(case):
+    """predicate of C20-CMD: commandeer() where the original connection has no channel log and the commandeering driver has one"""
+    return case.get("kind") == "commandeer" and case.get("sink_a") == "off" and case.get("sink_b") != "off"
+
+
+def m_commandeer_line(case, res):
+    """the model's statement: one channel whose sink is the ORIGINAL connection's, fed the ops of both phases"""
+    sink = {"off": "off", "bio": "bio"}.get(case["sink_a"]) or ("a" if case.get("mode_a", "write") == "append" else "w")
+    ops = ["o"]
+    for op in res["ops"]:
+        ops.append("r" + hexs(op[1]) if op[0] == "r" else ("x" if op[2] else "w" + es(op[1]) + "/" + es(repr(op[1]))))
+    ops.append("c")
+    return f"chan {sink} {hexs(bytes.fromhex(case.get('old_a', '')))} {es(case.get('host', 'sim'))} 22 {es('')} {','.join(ops)}"
+
+
+def gen_commandeer(rng, tier):
+    """every pair of sinks (original x commandeering) x execute_on_open x sync/asyncio (exhaustive), modes / old content / cuts random"""
+    out = []
+    for sa in ("path", "true", "bio", "off"):
+        for sb in ("path", "true", "bio", "off"):
+            for on_open in (True, False):
+                stacks = ("sync", "async") if tier != "quick" else (("sync", "async")[(len(out) // 2 + on_open) % 2],)
+                for stack in stacks:
+                    ck_ = rng.choice([("whole",), ("rng", rng.randrange(1 << 30), rng.choice([3, 9, 60]))])
+                    out.append({"kind": "commandeer", "sink_a": sa, "sink_b": sb, "on_open": on_open, "stack": stack, "cuts": list(ck_),
+                                "mode_a": rng.choice(["write", "append"]), "mode_b": rng.choice(["write", "append"]),
+                                "old_a": rng.choice([b"", b"OLD-A\r\n"]).hex() if sa != "off" else "",
+                                "old_b": rng.choice([b"", b"OLD-B\n"]).hex() if sb not in ("off",) and not (sa == "true" and sb == "true") else "",
+                                "platform_a": rng.choice(["generic", "generic", "cisco_iosxe"]),
+                                "banner": rng.choice([b"", b"console server\r\r\n"]).hex(),
+                                "cmds_a": [rng.choice(["show clock", "show version"]) for _ in range(rng.randint(0, 2))],
+                                "cmds_b": [rng.choice(["show version", "show ip int brief", "show it's"]) for _ in range(rng.randint(1, 2))]})
+    return out
+
+
 # ---------------------------------------------------------------- end to end: enable_basic_logging around a real session
+BIG_OUT = "".join(f"line {i:05d} of the output of show tech: it's \"quoted\" 100% " + "x" * 40 + "\r\n" for i in range(900))    # ~ 88 KB
+
+
 def run_e2e(case, work):
     """enable_basic_logging(file=…) + a real driver session; returns file content and the captured record stream"""
     from harness.simdevice import CliDevice
@@ -732,7 +952,7 @@ def run_e2e(case, work):
             new = [h for h in lg.handlers if h not in saved[2] and h is not cap]
             try:
                 for sess in case["sessions"]:
-                    dev = CliDevice("cisco_iosxe", nl=b"\r\n", outputs=lambda m, l: DEV_OUT[len(l) % len(DEV_OUT)])
+                    dev = CliDevice("cisco_iosxe", nl=b"\r\n", outputs=lambda m, l: BIG_OUT if l.strip() == "show tech" else DEV_OUT[len(l) % len(DEV_OUT)])
                     conn, t = make_conn("cisco_iosxe", dev, stack="sync", cuts=CutRng(random.Random(sess["seed"]), sess["maxn"]),
                                         host=case.get("host", "sim"), port=case.get("port", 22))
                     conn.open()
@@ -754,6 +974,12 @@ def run_e2e(case, work):
     shutil.rmtree(d, ignore_errors=True)
     return {"file": data, "recs": cap.recs, "problems": problems, "nhandlers": len(new), "nerr": err.getvalue().count("--- Logging error ---"),
             "hclass": type(new[0]).__name__ if new else None}
+
+
+def gen_e2e_big(rng, i):
+    """a command whose output is a run of consecutive reads of more than 64 KiB (full sized transport reads / small ones)"""
+    return {"kind": "e2e", "file": "path", "caller": False, "buffered": True, "mode": "write", "old": "", "host": "sim", "port": 22, "big": True,
+            "sessions": [{"seed": rng.randrange(1 << 30), "maxn": [65535, 4096, 700][i % 3], "cmds": ["show clock", "show tech"], "close": i % 2 == 0}]}
 
 
 def gen_e2e(rng):
@@ -784,6 +1010,8 @@ def _hist_rec(kind, n, ex):
     """records with a token that occurs nowhere else in the history (so loss / reordering cannot hide behind a repeat)"""
     if kind == "R":
         return rec("read: %r", (f"<r{n}>\n".encode(),), **ex)
+    if kind == "Rbig":    # a full sized transport read: two of them in a row are more than 64 KiB of coalesced payload
+        return rec("read: %r", (f"<r{n}>".encode() + bytes([97 + n % 26]) * (40000 + 7 * n),), **ex)
     if kind == "Re":
         return rec(f"read: {f'<e{n}>'.encode()!r}", (), **ex)
     if kind == "W":
@@ -1055,6 +1283,11 @@ def gen_histories(rng, tier):
                 calls = [{"file": "A", "buffered": b1, "caller": False, "mode": "write", "level": "debug"},
                          {"file": "B", "buffered": True, "caller": False, "mode": "write", "level": l2}]
                 out.append(_history([["Wn"], ["R", "R"], w2], calls, "shutdown"))
+    # long runs / large payloads across the API: > 64 KiB of consecutive reads pending when the next call / the end comes
+    for w1, w2, b2, end in ((["Rbig", "Rbig"], ["I"], True, "shutdown"), (["W", "Rbig", "R", "Rbig"], ["Rbig", "Rbig", "Rbig"], False, "close"),
+                            (["R"] * 300, ["Rbig"], True, "shutdown")):
+        calls = [{"file": "A", "buffered": True, "caller": False, "mode": "write"}, {"file": "B", "buffered": b2, "caller": False, "mode": "write"}]
+        out.append(_history([["I"], w1, w2], calls, end))
     nex = len(out)
     for _ in range(150 if tier == "quick" else 2500):
         nc = rng.choice([1, 2, 2, 3, 3, 4])
@@ -1107,6 +1340,9 @@ def tags_of(case):
         runs.append(cur)
     t = ["buffered" if case["buffered"] else "unbuffered", "append" if case.get("append") else "write",
          "caller_info" if case["caller"] else "plain", f"nrec={min(len(recs), 10)}", f"maxrun={min(max(runs, default=0), 6)}"]
+    if case.get("big"):
+        tot = sum(len(o_message(r)) - len(READ) for r in recs if is_read(r) and o_wf(r))
+        t += ["big-run", "big-total>=64KiB" if tot > 65535 else "big-total<64KiB", f"big-maxrun={'>=256' if max(runs, default=0) >= 256 else '<256'}"]
     if recs and is_read(recs[-1]):
         t.append("ends-with-read")
     if any(is_read(r) and r["args"] for r in recs):
@@ -1137,6 +1373,14 @@ def run(tier, seed):
                "logging.shutdown() or close(); the harness keeps no reference to the handlers; oracle = every record emitted between a call "
                "and the next one is in that call's file, complete and in order (atoms with unique tokens), no logging error; exhaustive over "
                "2 calls x 7 x 4 last-record shapes x buffering x ending. "
+               "big cases = long runs of consecutive reads / large payloads with totals at and around powers of two up to 2 x 65536 + 1 (one huge read, "
+               "two reads meeting at the boundary, 300 x 1000, 5 x 65535, random splits; ended by close / a non-read record / another run) at handler level, "
+               "in API histories (40 KB reads, 300 reads) and as a real session whose command output is > 64 KiB. "
+               "commandeer cases = original connection (sink path / True / BytesIO / off) opens and runs commands, an IOSXE driver with its own "
+               "channel_log setting (each of the four) commandeers it (execute_on_open on / off), commands run through it, it is closed; exhaustive over the "
+               "16 sink pairs x on_open, sync and asyncio; oracle = the original connection's sink holds every byte read before and after commandeer() "
+               "once, in order, the commandeering driver's own sink stays untouched; without an original sink the commandeering driver's own sink must "
+               "hold what is read through it (open finding C20-CMD on the unchanged tree). "
                "Non-trivial = >= 2 records with a read run (handler) / >= 1 read with CR (channel); distinct by full case.")
     ck.trusted = ["Lean 4.33.0 kernel; axioms of every theorem audited ⊆ {propext, Classical.choice, Quot.sound}",
                   "tools/gen/c20.py (format strings, prefix, widths, templates copied from the source AST)",
@@ -1207,6 +1451,12 @@ def _run(ck, tier, work):
         if _d:
             live.add("C20-DUP")
         ck.extra["variant_measured"]["stacks_handlers_on_one_path"] = bool(_d)
+    if "C20-CMD" in witnesses:          # commandeer(): original connection without a channel log, commandeering driver with one
+        wc = json.loads(json.dumps(witnesses["C20-CMD"]))
+        _p, _o = judge_commandeer(wc, run_commandeer(wc, work))
+        if _o:
+            live.add("C20-CMD")
+        ck.extra["variant_measured"]["commandeer_opens_own_channel_log"] = not _o
     for f in ck.findings:
         if f.get("status") == "open" and f["id"] in live:
             ck.known_finding(f["id"], f["what"])
@@ -1239,13 +1489,15 @@ def _run(ck, tier, work):
                                "recs": [rec("write: %r", ("x",), module="m" * (tl), func="f" * (41 - tl), **e),
                                         rec("read: %r", (b"y",), **e), rec("info", (), level="INFO", **e)]})
     nexh = len(hcases) - ncorpus
+    big = gen_big(ck.rng, tier)
+    hcases += big
     nrand = 1500 if tier == "quick" else 25000
     for _ in range(nrand):
         hcases.append(gen_random(ck.rng, tier))
     mal = [gen_malformed(ck.rng, foreign=i % 3 == 2) for i in range(150 if tier == "quick" else 1500)]
     chcases = [json.loads(json.dumps(c)) for c in corpus if c.get("kind") == "channel"]
     chcases += [gen_channel(ck.rng, tier) for _ in range(120 if tier == "quick" else 1500)]
-    e2e = [gen_e2e(ck.rng) for _ in range(25 if tier == "quick" else 250)]
+    e2e = [gen_e2e_big(ck.rng, i) for i in range(2 if tier == "quick" else 6)] + [gen_e2e(ck.rng) for _ in range(25 if tier == "quick" else 250)]
 
     # ---------------- real runs
     vb = vbits(variant)
@@ -1292,6 +1544,11 @@ def _run(ck, tier, work):
         res = run_channel(c, work)
         plan.append(("channel", c, res, len(lines)))
         lines.append(m_chan_line(c, res["sessions"]))
+    cmdcases = [json.loads(json.dumps(c)) for c in corpus if c.get("kind") == "commandeer"] + gen_commandeer(ck.rng, tier)
+    for c in cmdcases:
+        res = run_commandeer(c, work)
+        plan.append(("commandeer", c, res, len(lines)))
+        lines.append(m_commandeer_line(c, res))
     hists, nhist_ex = gen_histories(ck.rng, tier)
     hists = [json.loads(json.dumps(c)) for c in corpus if c.get("kind") == "history"] + hists
     for c in hists:
@@ -1355,10 +1612,14 @@ def _run(ck, tier, work):
                 probs, want = judge_handler(c, res)
                 nread = sum(1 for r in c["recs"] if is_read(r))
                 ck.case(json.dumps(c, sort_keys=True), nontrivial=len(c["recs"]) >= 2 and nread >= 1,
-                        sample={"buffered": c["buffered"], "recs": [(r["msg"], r["args"]) for r in c["recs"][:5]]}, tags=tags_of(c))
+                        sample={"buffered": c["buffered"], "recs": [(r["msg"][:80], str(r["args"])[:80]) for r in c["recs"][:5]]}, tags=tags_of(c))
                 if probs:
-                    ck.violation({**c, "got_file": res["file"].decode("utf-8", "replace"), "want_file": want, "errors": res["errors"]},
-                                 "; ".join(probs), matcher)
+                    gf = res["file"].decode("utf-8", "replace")
+                    if c.get("big"):       # keep the replay readable: where the files part, not megabytes of payload
+                        k = next((i for i, (a, b) in enumerate(zip(gf, want)) if a != b), min(len(gf), len(want)))
+                        probs.append(f"file has {len(gf)} characters, the rendering {len(want)}; first difference at {k}: got {gf[k:k + 60]!r} want {want[k:k + 60]!r}")
+                        gf, want = gf[max(0, k - 200):k + 400], want[max(0, k - 200):k + 400]
+                    ck.violation({**c, "got_file": gf, "want_file": want, "errors": res["errors"]}, "; ".join(probs), matcher)
             if mout is not None:
                 got = f"{hexs(res['file'])} {','.join(res['errors']) if res['errors'] else '.'}"      # the WHOLE file (old content included)
                 if res["raised"]:
@@ -1405,6 +1666,27 @@ def _run(ck, tier, work):
                     ck.disagree("Log model (channel log) vs real Channel", {k: v for k, v in c.items()}, f"impl={got[:300]} model={mout[li][:300]}")
                 else:
                     ck.traces_validated += 1
+        elif kind == "commandeer":
+            probs, own = judge_commandeer(c, res)
+            nafter = sum(1 for op in res["ops"] if op[0] == "r")
+            ck.case(json.dumps(c, sort_keys=True), nontrivial=res["commandeered"] and len(res["after"]) > 0,
+                    sample={"commandeer": (c["sink_a"], c["sink_b"]), "stack": c["stack"], "on_open": c["on_open"], "reads": nafter},
+                    tags=("commandeer", "cmd-orig-sink=" + c["sink_a"], "cmd-new-sink=" + c["sink_b"], "cmd-" + c["stack"],
+                          "cmd-on_open" if c["on_open"] else "cmd-no-on_open"))
+            slim = {**c, "got_a": hexs(res["content"]["a"] or b"")[-4000:], "got_b": hexs(res["content"]["b"] or b"")[-2000:],
+                    "served_before": hexs(res["before"])[-2000:], "served_after": hexs(res["after"])[-4000:]}
+            if probs:
+                ck.violation(slim, "; ".join(probs), None)
+            if own:
+                ck.violation(slim, "; ".join(own), lambda cc: "C20-CMD" if ("C20-CMD" in live and cmd_predicate(cc)) else None)
+            if mout is not None and not res["problems"]:
+                got = (f"{hexs(res['content']['a'] or (bytes.fromhex(c.get('old_a', '')) if c['sink_a'] == 'off' else b''))} "
+                       f"{1 if c['sink_a'] == 'bio' else 0} {enc_emitted(res['recs'])}")
+                if got != mout[li]:
+                    ck.disagree("Log model (one channel log = the original connection's, across commandeer) vs real drivers", c,
+                                f"impl={got[:300]} model={mout[li][:300]}")
+                else:
+                    ck.traces_validated += 1
         elif kind == "history":
             probs, dups = ([], []) if c.get("illformed") else judge_history(c, res)
             ncalls = sum(1 for st in c["steps"] if st["op"] == "enable")
@@ -1449,7 +1731,7 @@ def _run(ck, tier, work):
             probs, want = judge_handler(cc, hres)
             if res["nhandlers"] != 1 or res["hclass"] != ("ScrapliFileHandler" if c["buffered"] else "FileHandler"):
                 probs.append(f"enable_basic_logging installed {res['nhandlers']} handler(s) of class {res['hclass']}")
-            ck.case(json.dumps(c, sort_keys=True), nontrivial=len(res["recs"]) > 3, tags=("e2e", "e2e-buffered" if c["buffered"] else "e2e-unbuffered"),
+            ck.case(json.dumps(c, sort_keys=True), nontrivial=len(res["recs"]) > 3, tags=("e2e", "e2e-buffered" if c["buffered"] else "e2e-unbuffered", *(["e2e-big-output>64KiB"] if c.get("big") else [])),
                     sample={"e2e": c["mode"], "records": len(res["recs"])})
             if probs:
                 slim = {**cc, "recs": res["recs"][:60], "got_file": res["file"].decode("utf-8", "replace")[:4000], "want_file": want[:4000]}
@@ -1479,7 +1761,7 @@ def _run(ck, tier, work):
     ck.exhaustive = True
     ck.extra["exhaustive_scope"] = (f"all record sequences of <= {nmax} records over a 6-kind alphabet (buffered; <= 3 unbuffered) + all 8 extras "
                                    f"subsets x 11 target lengths x caller_info ({nexh} cases); bytes repr on all 256 single bytes")
-    ck.extra["case_counts"] = {"handler": len(hcases), "malformed_advisory": len(mal), "formatter": len(fcases), "channel": len(chcases), "e2e": len(e2e),
+    ck.extra["case_counts"] = {"handler": len(hcases), "handler_big_runs": len(big), "malformed_advisory": len(mal), "formatter": len(fcases), "channel": len(chcases), "commandeer": len(cmdcases), "e2e": len(e2e),
                                "history": len(hists), "history_exhaustive": nhist_ex, "small": len(small)}
     return ck.finish()
 
@@ -1509,6 +1791,12 @@ def replay(path):
                 print(f"--- file {k}:\n" + (v.decode("utf-8", "replace") if v is not None else "(missing)"))
             print("steps:", [(st["op"], st.get("file") or st.get("rec", {}).get("msg"), st.get("level") or st.get("rec", {}).get("level")) for st in c["steps"]], "end:", c["end"])
             print("level in force at the start:", res["level0"], "refused calls:", res["refused"], "file handlers at the end:", res["nhandlers"])
+        elif kind == "commandeer":
+            res = run_commandeer(c, work)
+            probs, own = judge_commandeer(c, res)
+            probs = probs + own
+            print("original connection's sink:", c["sink_a"], res["content"]["a"], "\ncommandeering driver's sink:", c["sink_b"], res["content"]["b"])
+            print("served before commandeer():", res["before"], "\nserved after commandeer():", res["after"])
         elif kind == "formatter":
             out = run_formatter(c)
             probs = [f"raised {o[1]}" for o in out if o[0] != "ok"]
